@@ -333,9 +333,12 @@ type subst struct {
 	name string
 	make func(anchorS, anchorM *yaml.Node) *yaml.Node
 	big  bool // too large for a correspondence case
+	// nullAlias: the value becomes an ALIAS to an anchored null node (a pair `x-null-anchor: &vnull`
+	// is put in front of the document's root mapping)
+	nullAlias bool
 }
 
-var scalarPool = []string{"./x.yml@main", "./", "docker://", "owner/repo@", "nan", ".nan", ".inf", "-.inf", "inf", "-0", "0x10", "0o17", "1e400", "1_000", "", "~", "true",
+var scalarPool = []string{"./x.yml@main", "./", "docker://", "owner/repo@", "checkout@feature/x", "a@b/c", "@/", "/@", "@", "a/b/c@", "a//b@c", "./@x/", "nan", ".nan", ".inf", "-.inf", "inf", "-0", "0x10", "0o17", "1e400", "1_000", "", "~", "true",
 	"123456789012345678901234567890123456789012345678901234567890", "NaN", "0", "-1", "1.5", "${{ x }}", " ${{ x }} ", "${{ a }} ${{ b }}", "a b"}
 
 var tagPool = []string{"!!float", "!!int", "!!bool", "!!null", "!!str", "!!binary"}
@@ -426,6 +429,7 @@ func buildSubs() []subst {
 			sc("!!merge", "<<", 0), {Kind: yaml.SequenceNode, Tag: "!!seq", Style: yaml.FlowStyle, Content: []*yaml.Node{
 				{Kind: yaml.AliasNode, Value: am.Anchor, Alias: am}, {Kind: yaml.AliasNode, Value: as.Anchor, Alias: as}}}}}
 	}})
+	ss = append(ss, subst{name: "alias-null", nullAlias: true})
 	// size and depth
 	ss = append(ss, subst{name: "seq-depth-200", big: true, make: func(_, _ *yaml.Node) *yaml.Node { return nest(200, false) }})
 	ss = append(ss, subst{name: "map-depth-200", big: true, make: func(_, _ *yaml.Node) *yaml.Node { return nest(200, true) }})
@@ -523,12 +527,29 @@ func mutate(b *base, pos position, s subst, op int) (out []byte, reason string) 
 	if len(pos.path) == 0 {
 		return nil, "root"
 	}
+	var anull *yaml.Node
+	if s.nullAlias {
+		if root.Kind != yaml.MappingNode {
+			return nil, "root is not a mapping"
+		}
+		anull = sc("!!null", "", 0)
+		anull.Anchor = "vnull"
+		root.Content = append([]*yaml.Node{sc("!!str", "x-null-anchor", 0), anull}, root.Content...)
+		p2 := append([]int{}, pos.path...)
+		p2[0] += 2
+		pos = position{path: p2, keyPath: pos.keyPath, isKey: pos.isKey, kind: pos.kind}
+	}
 	parent := nodeAt(root, pos.path[:len(pos.path)-1])
 	last := pos.path[len(pos.path)-1]
 	if parent == nil || last >= len(parent.Content) {
 		return nil, "path"
 	}
-	repl := s.make(as, am)
+	var repl *yaml.Node
+	if s.nullAlias {
+		repl = &yaml.Node{Kind: yaml.AliasNode, Value: "vnull", Alias: anull}
+	} else {
+		repl = s.make(as, am)
+	}
 	if repl == nil {
 		return nil, "no collection to alias"
 	}
@@ -686,7 +707,7 @@ func (pl *plan) build() {
 		b := pl.bases[ch][0]
 		var ts []triple
 		for si, sb := range pl.subs {
-			if sb.name != "alias-scalar" && sb.name != "alias-collection" {
+			if sb.name != "alias-scalar" && sb.name != "alias-collection" && sb.name != "alias-null" {
 				continue
 			}
 			for pi := 1; pi < len(b.positions); pi++ {
